@@ -173,24 +173,35 @@ def check(case):
         wdesc2, stats2, root2 = one('second', table_state(case['table']))
         h1 = [get_attr(r, nm['resource-hash']) for r in wdesc['resources']] + [ph]
         h2 = [get_attr(r, nm['resource-hash']) for r in wdesc2['resources']] + [get_attr(wdesc2, nm['datapackage-hash'])]
-        if h1 != h2:
+        if h1 != h2 and cfg['format'] != 'excel':      # a workbook embeds its creation time: not reproducible by construction
             V('hash-unstable', 'two dumps of the same data record hashes %r and %r' % (h1, h2))
         # re-dump of a loaded dump (descriptor already carrying counters)
         if cfg.get('redump') and cfg['how'] == 'path':
             try:
                 back = core.materialise(core.dataflows.load(os.path.join(root, 'datapackage.json')), via='results')
+                if cfg.get('carry_meta'):
+                    # the package-level properties of the earlier dump travel along (update_package(**old_descriptor)):
+                    # the totals it recorded must not be added to
+                    for k_, v_ in wdesc.items():
+                        if k_ != 'resources':
+                            back.desc[k_] = copy.deepcopy(v_)
                 wdesc3, stats3, root3 = one('third', back)
+                tot_b3 = 0
                 for r in wdesc3['resources']:
                     facts = dumps.file_facts(root3, r)
                     if facts is None:
                         V('redump-path', 're-dump: recorded path %r does not exist' % r['path'])
                         continue
+                    tot_b3 += facts['bytes']
                     if nm['resource-bytes'] and get_attr(r, nm['resource-bytes']) != facts['bytes']:
                         V('redump-resource-bytes', 're-dump of a loaded dump: %s records %r bytes, the file has %d' %
                           (r['name'], get_attr(r, nm['resource-bytes']), facts['bytes']))
                     if nm['resource-rowcount'] and get_attr(r, nm['resource-rowcount']) != len(dumps.decode_resource(root3, r)):
                         V('redump-resource-rowcount', 're-dump of a loaded dump: %s records %r rows, the file holds %d' %
                           (r['name'], get_attr(r, nm['resource-rowcount']), len(dumps.decode_resource(root3, r))))
+                if nm['datapackage-bytes'] and get_attr(wdesc3, nm['datapackage-bytes']) != tot_b3:
+                    V('redump-package-bytes', 're-dump of a loaded dump%s: package records %r bytes, the data files total %d' %
+                      (' carrying the old package properties' if cfg.get('carry_meta') else '', get_attr(wdesc3, nm['datapackage-bytes']), tot_b3))
                 if nm['datapackage-rowcount'] and get_attr(wdesc3, nm['datapackage-rowcount']) != tot_rows:
                     V('redump-package-rowcount', 're-dump of a loaded dump: package records %r rows, the resources hold %d' %
                       (get_attr(wdesc3, nm['datapackage-rowcount']), tot_rows))
@@ -289,6 +300,13 @@ def cases(tier):
             out.append({'table': table, 'cfg': {'format': fmt, 'how': 'path', 'counters': 'default', 'overwrite': True, 'samesize': True}})
             out.append({'table': table, 'cfg': {'format': fmt, 'how': 'path', 'counters': 'default', 'overwrite': True, 'filehash': True}})
             out.append({'table': table, 'cfg': {'format': fmt, 'how': 'path', 'counters': 'dotted', 'redump': True}})
+            for counters in ('default', 'dotted', 'renamed'):
+                out.append({'table': table, 'cfg': {'format': fmt, 'how': 'path', 'counters': counters, 'redump': True, 'carry_meta': True}})
+    # the spreadsheet writer saves by file name rather than through the dumper's temporary file handle
+    for table in ('ascii', 'empty', 'two', 'multibyte'):
+        for how in ('path', 'zip'):
+            for counters in ('default', 'dotted', 'no-res-hash'):
+                out.append({'table': table, 'cfg': {'format': 'excel', 'how': how, 'counters': counters}})
     return out
 
 
